@@ -8,7 +8,8 @@ class Prop:
     MODEL_TARGETS = ['model/Node.vo', 'model/NodeSpec.vo', 'model/Cluster.vo', 'model/ClusterSpec.vo']
     TARGETS = ['props/C08.vo']
     PROPS_FILE = 'props/C08.v'
-    SUITES = [ClusterSuite(evals={'mismatches': 'cmismatches', 'spec_violations': 'spec_violations_c08'},
+    SUITES = [ClusterSuite(evals={'mismatches': 'cmismatches', 'spec_violations': 'spec_violations_c08',
+                                  'known:handshake-window-state-lost': 'known_c08_stale_view'},
                            quick=(60, 150), thorough=(400, 300), quiet_rounds=14, convergent_cfg=True),
               NodeSuite(evals={'mismatches': 'mismatches'}, quick=(400, 60), thorough=(3000, 150))]
     RULE = ('cluster suite: 2-4 real instances (real Context/StateModes/FSM/listener dispatch/proxy server+proxy '
